@@ -1384,34 +1384,35 @@ func t2c16Alphabet(c *Ctx) {
 	}
 	c.Floor(rule, sites, 2, "alphabet index sites")
 
-	// the extension OID compared in ModHex
+	// the extension OID compared in ModHex (or in a helper it calls): BinOp ==/!= of (asn1.ObjectIdentifier).String()
+	// with a string constant, on the compiled form
 	nOID := 0
-	ast.Inspect(fd.Body, func(n ast.Node) bool {
-		b, ok := n.(*ast.BinaryExpr)
-		if !ok || (b.Op != token.EQL && b.Op != token.NEQ) {
-			return true
+	if mhf := w.Func("attestation/yubiattest", "ModHex"); mhf != nil {
+		for _, tf := range w.Tree(mhf) {
+			for _, blk := range tf.Blocks {
+				for _, ins := range blk.Instrs {
+					b, ok := ins.(*ssa.BinOp)
+					if !ok || (b.Op != token.EQL && b.Op != token.NEQ) {
+						continue
+					}
+					for _, pair := range [][2]ssa.Value{{b.X, b.Y}, {b.Y, b.X}} {
+						call, ok := pair[0].(*ssa.Call)
+						if !ok || calleeName(call) != "(encoding/asn1.ObjectIdentifier).String" {
+							continue
+						}
+						nOID++
+						s, ok := strConst(pair[1])
+						if !ok {
+							c.Und(rule, "ModHex|extension OID literal", w.Pos(b.Pos()), "the OID's String() is compared with a non-constant")
+							continue
+						}
+						c.Check(s == t2yubicoSerialOID && b.Op == token.EQL, rule, "ModHex|extension OID literal", w.Pos(b.Pos()), "compares with \""+s+"\" (Yubico PIV serial-number extension)",
+							fmt.Sprintf("ModHex compares the extension id with %q (operator %s), want == %q", s, b.Op, t2yubicoSerialOID))
+					}
+				}
+			}
 		}
-		for _, pair := range [][2]ast.Expr{{b.X, b.Y}, {b.Y, b.X}} {
-			call, callee := t2callee(p, pair[0])
-			if call == nil {
-				continue
-			}
-			m, ok := callee.(*types.Func)
-			if !ok || m.Name() != "String" || m.Pkg() == nil || m.Pkg().Path() != "encoding/asn1" {
-				continue
-			}
-			s, ok := t2constStr(p, pair[1])
-			if !ok {
-				c.Und(rule, "ModHex|extension OID literal", w.Pos(b.Pos()), "the OID's String() is compared with a non-constant")
-				nOID++
-				continue
-			}
-			nOID++
-			c.Check(s == t2yubicoSerialOID && b.Op == token.EQL, rule, "ModHex|extension OID literal", w.Pos(b.Pos()), "compares with \""+s+"\" (Yubico PIV serial-number extension)",
-				fmt.Sprintf("ModHex compares the extension id with %q (operator %s), want == %q", s, b.Op, t2yubicoSerialOID))
-		}
-		return true
-	})
+	}
 	if nOID == 0 {
 		c.Unresolved(rule, "comparison `ext.Id.String() == <literal>` in ModHex")
 	}
